@@ -131,6 +131,8 @@ def generate(rng, tier, idx):
                 op['fault'] = {'kind': 'hostile_input_id', 'ident': ident}
         if front == 'csv':
             op['out_to'] = rng.choice(['file', 'stdout'])
+        if front == 'sqlite' and rng.random() < 0.3:
+            op['pending_transaction'] = True
         if front == 'js_csv':
             op['bulk_read'] = rng.random() < 0.5
         if front == 'cli_interactive':
@@ -477,10 +479,26 @@ def run_op(t, world, op):
                         t.csv.query_csv(op['query'], world.in_path, ',', 'quoted', out_path if to_file else None, ',', 'quoted', 'utf-8', warnings, bool(world.header))
                         outcome = ['ok']
                     elif front == 'sqlite':
+                        con = world.open_con()
+                        staged = 0
+                        if op.get('pending_transaction'):
+                            # the caller's own uncommitted work on the connection it lends to RBQL: it must still be the caller's
+                            # to roll back afterwards (the trace callback is off while the harness itself writes)
+                            con.set_trace_callback(None)
+                            con.execute("insert into tb values ('staged', 'by', 'caller')")
+                            staged = con.total_changes
+                            con.set_trace_callback(world.statements.append)
                         try:
-                            t.sqlite.query_sqlite_to_csv(op['query'], world.open_con(), table, out_path, ',', 'quoted_rfc', 'utf-8', warnings)
+                            t.sqlite.query_sqlite_to_csv(op['query'], con, table, out_path, ',', 'quoted_rfc', 'utf-8', warnings)
                             outcome = ['ok']
                         finally:
+                            if op.get('pending_transaction'):
+                                world.api_changes -= staged
+                                con.set_trace_callback(None)
+                                try:
+                                    con.rollback()
+                                except Exception:
+                                    pass
                             world.close_con()
                     elif front == 'cli_interactive':
                         try:
